@@ -109,6 +109,22 @@ theorem C02_af_column (w : W) (hI : WInv w) (n0 : Node) (rest : List Node)
       r'.bits = tail ∧ RInv r' :=
   af_column_roundtrip w hI n0 rest haf hall hw hv r hIr tail hb cb col hcaf hcw g hfull hn hcol
 
+/-- **IEEE column round trip** (2 09 032 / 2 09 064, whole dataset or any slice): whatever the encoder writes for a
+column of IEEE fields — the value once when every subset holds the same *bits*, every value in full otherwise —
+the decoder hands each subset of the request its own 32 or 64 bits and ends right behind the column.  Equality is
+equality of bit patterns: infinities, the largest finite values (the library's "missing" reals among them) and
+signed zeros are values of their own. -/
+theorem C02_ieee_column (w : W) (hI : WInv w) (n0 : Node) (rest : List Node)
+    (r : R) (hIr : RInv r) (tail : List Bool)
+    (hb : w.bits ++ r.bits = (putIeeeCompressed w (n0 :: rest)).bits ++ tail)
+    (cb : Node) (col : List Node) (hnb : cb.enc.nbits = if n0.enc.nbits = 64 then 64 else 32)
+    (g : Range) (hg : g.OK) (hn : g.nsub = (n0 :: rest).length) (hcol : (cb :: col).length = g.count) :
+    ∃ r', getIeeeCompressed r (cb :: col) g =
+        some (r', zipWithNodes ieeeSetv (cb :: col)
+          ((g.slice ((n0 :: rest).map valueBits)).map (· % 2^cb.enc.nbits.toNat))) ∧
+      r'.bits = tail ∧ RInv r' :=
+  ieee_column_roundtrip w hI n0 rest r hIr tail hb cb col hnb g hg hn hcol
+
 /-- **character column round trip** (whole dataset, fields of 1..63 octets): whether the encoder
 lists the strings (they differ) or announces one for all (it regards them as equal: same
 significant part, trailing blanks aside), every subset gets back the octets of its own value, blank
